@@ -176,7 +176,8 @@ class HistogramBase(abc.ABC):
         self.keep_missed = keep_missed
         # Note: missed are dealt differently in 1D/ND cases
 
-        self._meta_data = kwargs.copy()
+        # Nested values too (a tree from `to_dict()` still belongs to its histogram)
+        self._meta_data = copy.deepcopy(kwargs)
         self.axis_names = tuple(axis_names or self.default_axis_names)
 
     # Make numpy scalars / arrays on the left-hand side of an operator defer to
